@@ -30,6 +30,8 @@ MUTANTS = {
     "u_queue": [
         ("src/util/messages_queue.rs", "        queue.push_back(Control::Elem(value));", "        queue.push_front(Control::Elem(value));"),
         ("src/util/messages_queue.rs", "                Some(Control::Unblock) => return None,\n                None => (),\n            }\n\n            queue = self.condvar.wait(queue).unwrap();", "                Some(Control::Unblock) => (),\n                None => (),\n            }\n\n            queue = self.condvar.wait(queue).unwrap();"),
+        ("src/util/messages_queue.rs", "duration.subsec_nanos() < 1_000_000", "duration.subsec_nanos() < 500_000_000"),
+        ("src/util/messages_queue.rs", "duration = if duration > sleep_time {", "duration = if sleep_time > duration {"),
         ("src/lib.rs", "            Some(Message::NewRequest(rq)) => Ok(Some(rq)),\n            None => Ok(None),\n        }\n    }\n\n    /// Same as `recv()` but doesn't block.", "            Some(Message::NewRequest(rq)) => Ok(None),\n            None => Ok(None),\n        }\n    }\n\n    /// Same as `recv()` but doesn't block."),
     ],
     "u_cmp": [
@@ -45,6 +47,7 @@ MUTANTS = {
         ("src/request.rs", "            Some(v) if v.eq_ignore_ascii_case(\"100-continue\") => true,", "            Some(v) if v == \"100-continue\" => true,"),
     ],
     "u_conn": [
+        ("src/client.rs", "if line.is_empty() {", "if line.as_str().trim().is_empty() {"),
         ("src/client.rs", "            if *rq.http_version() > (1, 1) {", "            if *rq.http_version() > (2, 0) {"),
         ("src/client.rs", "                drop(writer);\n                continue;", "                continue;"),
         ("src/client.rs", "                Some(ref val) if val.contains(\"upgrade\") => self.no_more_requests = true,", ""),
